@@ -254,19 +254,19 @@ Definition gop_shape (g : list pkt) : Prop :=
   | k :: r => p_key k = true /\ forall q, In q r -> p_key q = false
   end.
 
-Record RI (go : bool) (l : list pkt) (ca : rcache) : Prop := {
-  ri_flag : rc_gopon ca = go;
-  ri_head : gop_shape (rc_gop ca);
-  ri_vps : par 5 l (rc_vps ca);
-  ri_sps : par 3 l (rc_sps ca);
-  ri_pps : par 4 l (rc_pps ca);
-  ri_gop : subseq (rc_gop ca) l;
-  ri_media : forall p, In p (rc_gop ca) -> is_media p = true;
-  ri_len : rc_gop ca = [] \/ length (rc_gop ca) <= S (since l);
-  ri_off : rc_gopon ca = false -> rc_gop ca = []
+Record RI0 (go : bool) (l : list pkt) (ca : rcache) : Prop := {
+  r0_flag : rc_gopon ca = go;
+  r0_head : gop_shape (rc_gop ca);
+  r0_vps : par 5 l (rc_vps ca);
+  r0_sps : par 3 l (rc_sps ca);
+  r0_pps : par 4 l (rc_pps ca);
+  r0_gop : subseq (rc_gop ca) l;
+  r0_media : forall p, In p (rc_gop ca) -> is_media p = true;
+  r0_len : rc_gop ca = [] \/ length (rc_gop ca) <= S (since l);
+  r0_off : rc_gopon ca = false -> rc_gop ca = []
 }.
 
-Lemma RI_empty : forall l g, RI g l (rc_empty g).
+Lemma RI0_empty : forall l g, RI0 g l (rc_empty g).
 Proof.
   intros l g. constructor; cbn [rc_empty rc_vps rc_sps rc_pps rc_gop rc_gopon]; try apply par_none.
   - reflexivity.
@@ -280,31 +280,31 @@ Qed.
 Lemma since_grow_nokey : forall l p, p_key p = false -> since (l ++ [p]) = S (since l).
 Proof. intros l p H. rewrite LtsBacklogProofs.since_snoc, H. reflexivity. Qed.
 
-Lemma RI_grow_same : forall go l ca p, p_key p = false -> RI go l ca -> RI go (l ++ [p]) ca.
+Lemma RI0_grow_same : forall go l ca p, p_key p = false -> RI0 go l ca -> RI0 go (l ++ [p]) ca.
 Proof.
   intros go l ca p Hk [Hf Hh Hv Hs Hp Hg Hm Hl Ho]. constructor; try (apply par_grow; assumption); try assumption.
   - apply subseq_grow. exact Hg.
   - destruct Hl as [Hl|Hl]; [left; exact Hl|right]. rewrite since_grow_nokey by exact Hk. lia.
 Qed.
 
-Lemma RI_add : forall go l ca p, RI go l ca -> RI go (l ++ [p]) (rc_add ca p).
+Lemma RI0_add : forall go l ca p, RI0 go l ca -> RI0 go (l ++ [p]) (rc_add ca p).
 Proof.
   intros go l ca p HR.
   destruct (Z.eq_dec (p_kind p) 0) as [K0|K0].
-  { unfold rc_add. rewrite K0. apply RI_grow_same; [apply not_key; lia|exact HR]. }
+  { unfold rc_add. rewrite K0. apply RI0_grow_same; [apply not_key; lia|exact HR]. }
   destruct (Z.eq_dec (p_kind p) 5) as [K5|K5].
   { assert (Hk : p_key p = false) by (apply not_key; lia).
-    pose proof (RI_grow_same go l ca p Hk HR) as [Hf Hh Hv Hs Hp Hg Hm Hl Ho].
+    pose proof (RI0_grow_same go l ca p Hk HR) as [Hf Hh Hv Hs Hp Hg Hm Hl Ho].
     unfold rc_add. rewrite K5. constructor; cbn [rc_vps rc_sps rc_pps rc_gop rc_gopon]; try assumption.
     apply par_set. exact K5. }
   destruct (Z.eq_dec (p_kind p) 3) as [K3|K3].
   { assert (Hk : p_key p = false) by (apply not_key; lia).
-    pose proof (RI_grow_same go l ca p Hk HR) as [Hf Hh Hv Hs Hp Hg Hm Hl Ho].
+    pose proof (RI0_grow_same go l ca p Hk HR) as [Hf Hh Hv Hs Hp Hg Hm Hl Ho].
     unfold rc_add. rewrite K3. constructor; cbn [rc_vps rc_sps rc_pps rc_gop rc_gopon]; try assumption.
     apply par_set. exact K3. }
   destruct (Z.eq_dec (p_kind p) 4) as [K4|K4].
   { assert (Hk : p_key p = false) by (apply not_key; lia).
-    pose proof (RI_grow_same go l ca p Hk HR) as [Hf Hh Hv Hs Hp Hg Hm Hl Ho].
+    pose proof (RI0_grow_same go l ca p Hk HR) as [Hf Hh Hv Hs Hp Hg Hm Hl Ho].
     unfold rc_add. rewrite K4. constructor; cbn [rc_vps rc_sps rc_pps rc_gop rc_gopon]; try assumption.
     apply par_set. exact K4. }
   rewrite rc_add_other by assumption. unfold rc_add_media.
@@ -320,7 +320,7 @@ Proof.
       * right. cbn [length]. lia.
       * discriminate.
     + destruct (rc_gop ca) as [|g0 gs] eqn:Egop.
-      * apply RI_grow_same; assumption.
+      * apply RI0_grow_same; assumption.
       * destruct HR as [Hf Hh Hv Hs Hp Hg Hm Hl Ho].
         constructor; cbn [rc_vps rc_sps rc_pps rc_gop rc_gopon]; try (apply par_grow; assumption).
         -- congruence.
@@ -339,8 +339,80 @@ Proof.
       constructor; try (apply par_grow; assumption); try assumption.
       * apply subseq_grow. exact Hg.
       * left. apply Ho. exact Eg.
-    + apply RI_grow_same; assumption.
+    + apply RI0_grow_same; assumption.
 Qed.
+
+
+(* the GOP slot holds ALL video packets handed to the cache since its key-frame start *)
+Definition RC (l : list pkt) (ca : rcache) : Prop :=
+  rc_gop ca = [] \/ exists a, a <= length l /\ rc_gop ca = filter is_media (skipn a l).
+
+Lemma RC_grow_nonmedia : forall l ca p, is_media p = false -> RC l ca -> RC (l ++ [p]) ca.
+Proof.
+  intros l ca p Hm [E|(a & Ha & E)]; [left; exact E|right].
+  exists a. split; [rewrite app_length; lia|].
+  rewrite skipn_app. replace (a - length l) with 0 by lia.
+  rewrite filter_app. cbn [skipn filter]. rewrite Hm, app_nil_r. exact E.
+Qed.
+
+Lemma RC_add : forall go l ca p, RI0 go l ca -> RC l ca -> RC (l ++ [p]) (rc_add ca p).
+Proof.
+  intros go l ca p HR HC.
+  destruct (Z.eq_dec (p_kind p) 0) as [K0|K0].
+  { unfold rc_add. rewrite K0. apply RC_grow_nonmedia; [unfold is_media; rewrite K0; reflexivity|exact HC]. }
+  destruct (Z.eq_dec (p_kind p) 5) as [K5|K5].
+  { unfold rc_add. rewrite K5.
+    apply (RC_grow_nonmedia l ca p) in HC; [exact HC|unfold is_media; rewrite K5; reflexivity]. }
+  destruct (Z.eq_dec (p_kind p) 3) as [K3|K3].
+  { unfold rc_add. rewrite K3.
+    apply (RC_grow_nonmedia l ca p) in HC; [exact HC|unfold is_media; rewrite K3; reflexivity]. }
+  destruct (Z.eq_dec (p_kind p) 4) as [K4|K4].
+  { unfold rc_add. rewrite K4.
+    apply (RC_grow_nonmedia l ca p) in HC; [exact HC|unfold is_media; rewrite K4; reflexivity]. }
+  rewrite rc_add_other by assumption. unfold rc_add_media.
+  pose proof (kind_media p K0 K5 K3 K4) as Hmp.
+  destruct (rc_gopon ca) eqn:Eg.
+  - destruct (p_key p).
+    + right. exists (length l). split; [rewrite app_length; lia|].
+      cbn [rc_gop]. rewrite skipn_app, skipn_all, Nat.sub_diag. cbn [skipn app filter].
+      rewrite Hmp. reflexivity.
+    + destruct (rc_gop ca) as [|g0 gs] eqn:Egop.
+      * left. exact Egop.
+      * right. destruct HC as [E|(a & Ha & E)]; [rewrite Egop in E; discriminate|].
+        exists a. split; [rewrite app_length; lia|]. cbn [rc_gop].
+        rewrite skipn_app. replace (a - length l) with 0 by lia.
+        rewrite filter_app. cbn [skipn filter]. rewrite Hmp, <- E, Egop. reflexivity.
+  - left. apply (r0_off _ _ _ HR). exact Eg.
+Qed.
+
+Definition RI (go : bool) (l : list pkt) (ca : rcache) : Prop := RI0 go l ca /\ RC l ca.
+
+Lemma ri_flag : forall go l ca, RI go l ca -> rc_gopon ca = go.
+Proof. intros go l ca [H _]. apply (r0_flag _ _ _ H). Qed.
+Lemma ri_head : forall go l ca, RI go l ca -> gop_shape (rc_gop ca).
+Proof. intros go l ca [H _]. apply (r0_head _ _ _ H). Qed.
+Lemma ri_vps : forall go l ca, RI go l ca -> par 5 l (rc_vps ca).
+Proof. intros go l ca [H _]. apply (r0_vps _ _ _ H). Qed.
+Lemma ri_sps : forall go l ca, RI go l ca -> par 3 l (rc_sps ca).
+Proof. intros go l ca [H _]. apply (r0_sps _ _ _ H). Qed.
+Lemma ri_pps : forall go l ca, RI go l ca -> par 4 l (rc_pps ca).
+Proof. intros go l ca [H _]. apply (r0_pps _ _ _ H). Qed.
+Lemma ri_gop : forall go l ca, RI go l ca -> subseq (rc_gop ca) l.
+Proof. intros go l ca [H _]. apply (r0_gop _ _ _ H). Qed.
+Lemma ri_media : forall go l ca, RI go l ca -> forall p, In p (rc_gop ca) -> is_media p = true.
+Proof. intros go l ca [H _]. apply (r0_media _ _ _ H). Qed.
+Lemma ri_len : forall go l ca, RI go l ca -> rc_gop ca = [] \/ length (rc_gop ca) <= S (since l).
+Proof. intros go l ca [H _]. apply (r0_len _ _ _ H). Qed.
+Lemma ri_off : forall go l ca, RI go l ca -> rc_gopon ca = false -> rc_gop ca = [].
+Proof. intros go l ca [H _]. apply (r0_off _ _ _ H). Qed.
+Lemma ri_contig : forall go l ca, RI go l ca -> RC l ca.
+Proof. intros go l ca [_ H]. exact H. Qed.
+
+Lemma RI_empty : forall l g, RI g l (rc_empty g).
+Proof. intros l g. split; [apply RI0_empty|left; reflexivity]. Qed.
+
+Lemma RI_add : forall go l ca p, RI go l ca -> RI go (l ++ [p]) (rc_add ca p).
+Proof. intros go l ca p [H1 H2]. split; [apply RI0_add; exact H1|eapply RC_add; eassumption]. Qed.
 
 Lemma RI_snap : forall go l ca, RI go l ca ->
   rc_snap ca = opt_list (rc_vps ca) ++ opt_list (rc_sps ca) ++ opt_list (rc_pps ca) ++ rc_gop ca.
@@ -625,7 +697,8 @@ Qed.
 Definition shape (go : bool) (pkts pre : list pkt) : Prop :=
   exists v s p g, pre = opt_list v ++ opt_list s ++ opt_list p ++ g /\
     par 5 pkts v /\ par 3 pkts s /\ par 4 pkts p /\ subseq g pkts /\
-    (forall q, In q g -> is_media q = true) /\ gop_shape g /\ (g <> [] -> go = true).
+    (forall q, In q g -> is_media q = true) /\ gop_shape g /\ (g <> [] -> go = true) /\
+    (g = [] \/ exists A M R, pkts = A ++ M ++ R /\ g = filter is_media M).
 
 Lemma par_app : forall k l o r, par k l o -> par k (l ++ r) o.
 Proof. intros k l o r H q Hq. destruct (H q Hq) as [H1 H2]. split; [apply in_or_app; left|]; assumption. Qed.
@@ -638,8 +711,12 @@ Proof.
   split; [apply par_app, (ri_pps _ _ _ HR)|].
   split; [eapply LtsFanoutProofs.subseq_trans; [apply (ri_gop _ _ _ HR)|apply LtsFanoutProofs.subseq_app_l]|].
   split; [apply (ri_media _ _ _ HR)|]. split; [apply (ri_head _ _ _ HR)|].
-  intros Hne. rewrite <- (ri_flag _ _ _ HR). destruct (rc_gopon ca) eqn:Eg; [reflexivity|].
-  exfalso. apply Hne. apply (ri_off _ _ _ HR Eg).
+  split.
+  - intros Hne. rewrite <- (ri_flag _ _ _ HR). destruct (rc_gopon ca) eqn:Eg; [reflexivity|].
+    exfalso. apply Hne. apply (ri_off _ _ _ HR Eg).
+  - destruct (ri_contig _ _ _ HR) as [E|(a & Ha & E)]; [left; exact E|right].
+    exists (firstn a l), (skipn a l), r. split; [|exact E].
+    rewrite app_assoc, firstn_skipn. reflexivity.
 Qed.
 
 (* the facts about a join replay, for the final state of a case *)
@@ -791,6 +868,83 @@ Proof.
   destruct (p_kind x =? k)%Z; auto using in_cons.
 Qed.
 
+Lemma pos_at : forall A p R,
+  NoDup (map p_id (A ++ p :: R)) -> posZ (p_id p) (map p_id (A ++ p :: R)) = length A.
+Proof.
+  intros A p R Hnd. rewrite map_app in *. cbn [map] in *. rewrite posZ_notin.
+  - cbn [posZ]. rewrite Z.eqb_refl, map_length. lia.
+  - intros Hin. eapply nodup_app_disj; [exact Hnd|exact Hin|left; reflexivity].
+Qed.
+
+Lemma pos_in_lt : forall A R x, In x A -> posZ (p_id x) (map p_id (A ++ R)) < length A.
+Proof.
+  intros A R x Hx. rewrite map_app.
+  destruct (posZ_in (p_id x) (map p_id A) (map p_id R) (in_map p_id _ _ Hx)) as [E H].
+  rewrite E. rewrite map_length in H. exact H.
+Qed.
+
+
+(* ---- the GOP slot is media-contiguous: read off the ids ---- *)
+Lemma contig_ok_cons2 : forall pkts ids x y l,
+  contig_ok pkts ids (x :: y :: l) =
+  forallb (fun z => negb (mediaZ (kind_of pkts z))) (between ids (posZ x ids) (posZ y ids)) &&
+  contig_ok pkts ids (y :: l).
+Proof. reflexivity. Qed.
+
+Lemma contig_ok_prefix : forall pkts ids l1 l2,
+  contig_ok pkts ids (l1 ++ l2) = true -> contig_ok pkts ids l1 = true.
+Proof.
+  intros pkts ids l1. induction l1 as [|x l1 IH]; intros l2 H; [reflexivity|].
+  destruct l1 as [|y l1]; [reflexivity|].
+  change ((x :: y :: l1) ++ l2) with (x :: y :: (l1 ++ l2)) in H.
+  rewrite contig_ok_cons2 in H |- *. apply andb_true_iff in H. destruct H as [H1 H2].
+  rewrite H1. cbn [andb]. apply (IH l2). exact H2.
+Qed.
+
+Lemma between_mid : forall (A N R : list Z) x y i j,
+  i = length A -> j = i + S (length N) -> between (A ++ x :: N ++ y :: R) i j = N.
+Proof.
+  intros A N R x y i j -> ->. unfold between.
+  replace (length A + S (length N) - S (length A)) with (length N) by lia.
+  rewrite skipn_app, skipn_all2 by lia. replace (S (length A) - length A) with 1 by lia.
+  cbn [app skipn]. rewrite firstn_app, firstn_all, Nat.sub_diag. cbn [firstn]. apply app_nil_r.
+Qed.
+
+Lemma contig_sel : forall M pkts A N B x0,
+  pkts = A ++ x0 :: N ++ M ++ B -> NoDup (map p_id pkts) ->
+  (forall z, In z N -> is_media z = false) ->
+  contig_ok pkts (map p_id pkts) (p_id x0 :: map p_id (filter is_media M)) = true.
+Proof.
+  induction M as [|p M IH]; intros pkts A N B x0 E Hnd HN; [reflexivity|].
+  cbn [filter]. destruct (is_media p) eqn:Em.
+  - cbn [map]. rewrite contig_ok_cons2. apply andb_true_iff. split.
+    + assert (Hx : posZ (p_id x0) (map p_id pkts) = length A).
+      { rewrite E. apply pos_at. rewrite <- E. exact Hnd. }
+      assert (E2 : pkts = (A ++ x0 :: N) ++ p :: (M ++ B)) by (rewrite E, <- app_assoc; reflexivity).
+      assert (Hp : posZ (p_id p) (map p_id pkts) = length A + S (length N)).
+      { rewrite E2. rewrite pos_at by (rewrite <- E2; exact Hnd). rewrite app_length. cbn [length]. lia. }
+      rewrite Hx, Hp.
+      assert (Eb : between (map p_id pkts) (length A) (length A + S (length N)) = map p_id N).
+      { rewrite E, map_app. cbn [map]. rewrite map_app. cbn [app map].
+        apply between_mid; rewrite !map_length; reflexivity. }
+      rewrite Eb. apply forallb_forall. intros z Hz. apply in_map_iff in Hz. destruct Hz as (b & <- & Hb).
+      rewrite kind_of_id; [|exact Hnd|rewrite E; apply in_or_app; right; right; apply in_or_app; left; exact Hb].
+      apply negb_true_iff. apply (HN b Hb).
+    + apply (IH pkts (A ++ x0 :: N) [] B p); [rewrite E, <- app_assoc; reflexivity|exact Hnd|intros z []].
+  - apply (IH pkts A (N ++ [p]) B x0); [rewrite E, <- app_assoc; reflexivity|exact Hnd|].
+    intros z Hz. apply in_app_or in Hz. destruct Hz as [Hz|[<-|[]]]; [apply HN; exact Hz|exact Em].
+Qed.
+
+Lemma contig_sel0 : forall M pkts A B,
+  pkts = A ++ M ++ B -> NoDup (map p_id pkts) ->
+  contig_ok pkts (map p_id pkts) (map p_id (filter is_media M)) = true.
+Proof.
+  induction M as [|p M IH]; intros pkts A B E Hnd; [reflexivity|].
+  cbn [filter]. destruct (is_media p) eqn:Em.
+  - cbn [map]. apply (contig_sel M pkts A [] B p); [exact E|exact Hnd|intros z []].
+  - apply (IH pkts (A ++ [p]) B); [rewrite E, <- app_assoc; reflexivity|exact Hnd].
+Qed.
+
 Definition prefix (X Y : list pkt) : Prop := exists r, Y = X ++ r.
 
 Lemma strip_prefix : forall k l o R X,
@@ -810,7 +964,7 @@ Lemma replay_ok_shape : forall go pkts pre X,
   NoDup (map p_id pkts) -> shape go pkts pre -> prefix X pre -> (forall a, In a X -> In a pkts) ->
   replay_ok pkts go (map p_id pkts) (map p_id X) = true.
 Proof.
-  intros go pkts pre X Hnd (v & s & p & g & Epre & Hv & Hs & Hp & Hg & Hm & Hh & Hgo) Hpx Hin.
+  intros go pkts pre X Hnd (v & s & p & g & Epre & Hv & Hs & Hp & Hg & Hm & Hh & Hgo & Hcg) Hpx Hin.
   assert (Hkg : forall x, In x g ->
                   p_kind x <> 0%Z /\ p_kind x <> 3%Z /\ p_kind x <> 4%Z /\ p_kind x <> 5%Z)
     by (intros x Hx; apply media_kind, Hm, Hx).
@@ -854,6 +1008,10 @@ Proof.
   - apply subseqZ_complete. apply (LtsFanoutProofs.subseq_map _ _ p_id (x :: X3') pkts).
     eapply LtsFanoutProofs.subseq_trans; [|exact Hg].
     rewrite Er. apply (LtsFanoutProofs.subseq_app_l _ (x :: X3') r).
+  - destruct Hcg as [E0|(A & M & R & EA & EM)]; [contradiction|].
+    pose proof (contig_sel0 M pkts A R EA Hnd) as Hc. rewrite <- EM, Er in Hc.
+    change (x :: X3' ++ r) with ((x :: X3') ++ r) in Hc. rewrite map_app in Hc.
+    apply contig_ok_prefix in Hc. exact Hc.
 Qed.
 
 (* what one consumer was handed: no repeat, only published ids, and the split at the length of
@@ -992,21 +1150,6 @@ Proof.
   change ((x :: y :: l1) ++ l2) with (x :: y :: (l1 ++ l2)) in H.
   rewrite gaps_ok_cons2 in H |- *. apply andb_true_iff in H. destruct H as [H1 H2].
   rewrite H1. cbn [andb]. apply (IH l2). exact H2.
-Qed.
-
-Lemma pos_at : forall A p R,
-  NoDup (map p_id (A ++ p :: R)) -> posZ (p_id p) (map p_id (A ++ p :: R)) = length A.
-Proof.
-  intros A p R Hnd. rewrite map_app in *. cbn [map] in *. rewrite posZ_notin.
-  - cbn [posZ]. rewrite Z.eqb_refl, map_length. lia.
-  - intros Hin. eapply nodup_app_disj; [exact Hnd|exact Hin|left; reflexivity].
-Qed.
-
-Lemma pos_in_lt : forall A R x, In x A -> posZ (p_id x) (map p_id (A ++ R)) < length A.
-Proof.
-  intros A R x Hx. rewrite map_app.
-  destruct (posZ_in (p_id x) (map p_id A) (map p_id R) (in_map p_id _ _ Hx)) as [E H].
-  rewrite E. rewrite map_length in H. exact H.
 Qed.
 
 (* [x0]: the last packet kept so far; it is the packet just before [w] when [prev] says "kept" *)
